@@ -49,26 +49,50 @@ TopMode == Case.mode
 (* MappedInput::span / IterInput::span take the START of the token after the first cursor and   *)
 (* the END of the token before the second one -- for an empty match that is an inverted span    *)
 (* (or one reaching to eoi at cursor 0): deviation site "mapped_span" (C07), chosen in Init.    *)
-GappedKinds == {"mapped", "mstream", "iter"}
+GappedKinds == {"mapped", "mstream", "iter", "treem"}
 Gapped == Case.kind \in GappedKinds
 MappedDefect == "mapped_span" \in DOMAIN kf /\ kf["mapped_span"] = "on"
 GStart(i) == 3 * i + 1
+
+(* Token trees (C16).  For the kinds "tree" (nested slices &[Tok]) and "treem" (the same through  *)
+(* Input::map, tokens carrying global gapped spans) the flat token sequence contains balanced "("  *)
+(* ")" pairs: at any nesting level a "(" together with everything up to its matching ")" is ONE    *)
+(* token (a group).  A cursor is always an index into the flat sequence; an input context is the   *)
+(* flat range <<lo, hi>> of the tokens of one group (the whole input: <<0, NTok>>).  Every frame    *)
+(* carries the range of the input context it runs in (`rng`).                                       *)
+TreeKinds == {"tree", "treem"}
+IsTree == Case.kind \in TreeKinds
+RECURSIVE ScanClose(_, _)
+ScanClose(j, depth) ==        \* 1-based index of the ")" that closes the group open at depth `depth` before j
+  IF j > NTok THEN NTok
+  ELSE IF Toks[j] = "(" THEN ScanClose(j + 1, depth + 1)
+  ELSE IF Toks[j] = ")" THEN (IF depth = 1 THEN j ELSE ScanClose(j + 1, depth - 1))
+  ELSE ScanClose(j + 1, depth)
+(* cursor after the token that starts at cursor i *)
+Nxt(i) == IF IsTree /\ i < NTok /\ Toks[i + 1] = "(" THEN ScanClose(i + 2, 1) ELSE i + 1
+RngLo == IF stack = <<>> THEN 0 ELSE stack[Len(stack)].rng[1]
+RngHi == IF stack = <<>> THEN NTok ELSE stack[Len(stack)].rng[2]
+TopLevel == RngLo = 0 /\ RngHi = NTok
+RECURSIVE IdxIn(_, _)
+IdxIn(lo, c) == IF c <= lo THEN 0 ELSE 1 + IdxIn(Nxt(lo), c)      \* number of tokens of this level in [lo, c)
 SpanOf(i, j) ==
-  IF ~Gapped THEN <<Case.offs[i + 1], Case.offs[j + 1]>>
-  ELSE IF i = NTok THEN <<3 * NTok, 3 * NTok>>
+  IF Case.kind = "tree" THEN <<IdxIn(RngLo, i), IdxIn(RngLo, j)>>     \* plain slices: indices into the inner slice
+  ELSE IF ~Gapped THEN <<Case.offs[i + 1], Case.offs[j + 1]>>
+  ELSE IF i = RngHi THEN (IF TopLevel THEN <<3 * NTok, 3 * NTok>> ELSE <<GStart(i), GStart(i)>>)
   ELSE IF j > i THEN <<GStart(i), 3 * j - 1>>
   ELSE IF MappedDefect THEN <<GStart(i), IF j > 0 THEN 3 * j - 1 ELSE 3 * NTok>>
   ELSE <<GStart(i), GStart(i)>>       \* an empty match: an empty span just before the following token
-TokAt(i) == IF i < NTok THEN Toks[i + 1] ELSE ""     \* token after cursor i, "" at end of input
+TokAt(i) == IF i < RngHi THEN Toks[i + 1] ELSE ""     \* token after cursor i, "" at the end of the (inner) input
 
 ---------------------------------------------------------------------------
 (* frames, checkpoints, result register *)
 
 Cp(c, ns, ic) == [cur |-> c, nsec |-> ns, insp |-> ic]
-Frame(g, mode, ctx, env, path, role, n, c, ns, ic) ==
+Frame(g, mode, ctx, env, path, role, n, c, ns, ic, rng) ==
   [g |-> g, mode |-> mode, ctx |-> ctx, env |-> env, path |-> path, role |-> role,
-   pc |-> 0, n |-> n, k |-> 0, acc |-> <<>>, cp |-> Cp(c, ns, ic), cp2 |-> Cp(c, ns, ic), salt |-> NoAlt]
-NoFrame == Frame(<<"empty">>, "E", VU, <<>>, <<>>, "go", 0, 0, 0, 0)
+   pc |-> 0, n |-> n, k |-> 0, acc |-> <<>>, cp |-> Cp(c, ns, ic), cp2 |-> Cp(c, ns, ic), salt |-> NoAlt,
+   rng |-> rng, sv |-> <<>>]
+NoFrame == Frame(<<"empty">>, "E", VU, <<>>, <<>>, "go", 0, 0, 0, 0, <<0, 0>>)
 
 (* the result register; `fr` remembers the frame that returned (for the refinement invariants) *)
 NoRet == [set |-> FALSE, ok |-> FALSE, val |-> VU, some |-> FALSE, n |-> 0, fr |-> NoFrame]
@@ -88,7 +112,7 @@ Tick == st' = [st EXCEPT !.steps = @ + 1]
 CallX(f2, cg, cmode, cctx, cenv, cpath, crole, cn, ncur, nsec, ninsp, nalt) ==
   /\ cur' = ncur /\ sec' = nsec /\ insp' = ninsp /\ alt' = nalt
   /\ stack' = Append([stack EXCEPT ![Len(stack)] = f2],
-                     Frame(cg, cmode, cctx, cenv, cpath, crole, cn, ncur, Len(nsec), ninsp))
+                     Frame(cg, cmode, cctx, cenv, cpath, crole, cn, ncur, Len(nsec), ninsp, f2.rng))
   /\ ret' = NoRet
   /\ Tick
 Call(f2, k, cg, cmode, ncur, nsec, ninsp, nalt) ==
@@ -132,7 +156,12 @@ KfSplit(site, Correct, Defect) ==
 ---------------------------------------------------------------------------
 (* Primitive matchers (src/primitive.rs): one action                       *)
 
-LeafOps == {"just", "any", "oneof", "noneof", "sel", "end", "empty", "cust", "cfgjust", "cfgjustr"}
+LeafOps == {"just", "any", "oneof", "noneof", "sel", "end", "empty", "cust", "cfgjust", "cfgjustr", "tree"}
+VIn(lo, hi) == <<"In", lo, hi>>                \* the inner input of a group token: a flat range
+
+(* consume up to k tokens from cursor c: <<new cursor, tokens consumed>> *)
+RECURSIVE AdvK(_, _, _)
+AdvK(c, k, n) == IF k = 0 \/ c >= RngHi THEN <<c, n>> ELSE AdvK(Nxt(c), k - 1, n + 1)
 
 CtxToks(c) ==
   CASE c[1] = "T" -> <<c[2]>>
@@ -151,15 +180,16 @@ LeafRes(g, c, ctx) ==
       t == TokAt(c)
       oneTok(okc, v, exp) ==
         IF t # "" /\ okc
-        THEN [ok |-> TRUE, adv |-> 1, val |-> v, exp |-> {}, found |-> "", fs |-> 0, fe |-> 0, user |-> FALSE]
-        ELSE [ok |-> FALSE, adv |-> 0, val |-> VU, exp |-> exp, found |-> t,
-              fs |-> c, fe |-> IF t = "" THEN c ELSE c + 1, user |-> FALSE]
+        THEN [ok |-> TRUE, adv |-> 1, nc |-> Nxt(c), val |-> v, exp |-> {}, found |-> "", fs |-> 0, fe |-> 0, user |-> FALSE]
+        ELSE [ok |-> FALSE, adv |-> 0, nc |-> c, val |-> VU, exp |-> exp, found |-> t,
+              fs |-> c, fe |-> IF t = "" THEN c ELSE Nxt(c), user |-> FALSE]
       just(seq) ==
         LET k == MatchLen(seq, c) IN
         IF k = Len(seq)
-        THEN [ok |-> TRUE, adv |-> k, val |-> VS(seq), exp |-> {}, found |-> "", fs |-> 0, fe |-> 0, user |-> FALSE]
-        ELSE [ok |-> FALSE, adv |-> k, val |-> VU, exp |-> {"t:" \o seq[k + 1]}, found |-> TokAt(c + k),
-              fs |-> c + k, fe |-> IF TokAt(c + k) = "" THEN c + k ELSE c + k + 1, user |-> FALSE]
+        \* the matched tokens are plain ones (a group token equals no token of a just(..) sequence)
+        THEN [ok |-> TRUE, adv |-> k, nc |-> c + k, val |-> VS(seq), exp |-> {}, found |-> "", fs |-> 0, fe |-> 0, user |-> FALSE]
+        ELSE [ok |-> FALSE, adv |-> k, nc |-> c + k, val |-> VU, exp |-> {"t:" \o seq[k + 1]}, found |-> TokAt(c + k),
+              fs |-> c + k, fe |-> IF TokAt(c + k) = "" THEN c + k ELSE Nxt(c + k), user |-> FALSE]
   IN
   CASE o = "just" -> just(g[2])
     [] o \in {"cfgjust", "cfgjustr"} -> just(CtxToks(ctx))    \* owned, resp. through the `&T` ConfigParser impl
@@ -168,15 +198,19 @@ LeafRes(g, c, ctx) ==
     [] o = "noneof" -> oneTok(t \notin SeqToSet(g[2]), VT(t), {"else"})
     [] o = "sel" -> oneTok(t \in SeqToSet(g[2]), VM("sel", VT(t)), {"else"})
     [] o = "end" ->
-         IF t = "" THEN [ok |-> TRUE, adv |-> 0, val |-> VU, exp |-> {}, found |-> "", fs |-> 0, fe |-> 0, user |-> FALSE]
-         ELSE [ok |-> FALSE, adv |-> 0, val |-> VU, exp |-> {"eoi"}, found |-> t, fs |-> c, fe |-> c + 1, user |-> FALSE]
-    [] o = "empty" -> [ok |-> TRUE, adv |-> 0, val |-> VU, exp |-> {}, found |-> "", fs |-> 0, fe |-> 0, user |-> FALSE]
+         IF t = "" THEN [ok |-> TRUE, adv |-> 0, nc |-> c, val |-> VU, exp |-> {}, found |-> "", fs |-> 0, fe |-> 0, user |-> FALSE]
+         ELSE [ok |-> FALSE, adv |-> 0, nc |-> c, val |-> VU, exp |-> {"eoi"}, found |-> t, fs |-> c, fe |-> Nxt(c), user |-> FALSE]
+    [] o = "empty" -> [ok |-> TRUE, adv |-> 0, nc |-> c, val |-> VU, exp |-> {}, found |-> "", fs |-> 0, fe |-> 0, user |-> FALSE]
+    \* select_ref! { Tok::Group(xs) => inner input }: a group token yields its inner input
+    [] o = "tree" -> oneTok(t = "(", VIn(c + 1, Nxt(c) - 1), {"else"})
     [] o = "cust" ->
          \* custom(|inp| { k times inp.next() or Err; then Ok / Err }): fails WITHOUT rewinding
-         LET k == Min2(g[2], NTok - c) IN
+         LET a == AdvK(c, g[2], 0)
+             k == a[2]
+         IN
          IF k = g[2] /\ g[3]
-         THEN [ok |-> TRUE, adv |-> k, val |-> VC(k), exp |-> {}, found |-> "", fs |-> 0, fe |-> 0, user |-> FALSE]
-         ELSE [ok |-> FALSE, adv |-> k, val |-> VU, exp |-> {}, found |-> "", fs |-> c, fe |-> c + k, user |-> TRUE]
+         THEN [ok |-> TRUE, adv |-> k, nc |-> a[1], val |-> VC(k), exp |-> {}, found |-> "", fs |-> 0, fe |-> 0, user |-> FALSE]
+         ELSE [ok |-> FALSE, adv |-> k, nc |-> a[1], val |-> VU, exp |-> {}, found |-> "", fs |-> c, fe |-> a[1], user |-> TRUE]
 
 ALeaf ==
   /\ Entering(LeafOps)
@@ -184,14 +218,14 @@ ALeaf ==
          r == LeafRes(f.g, cur, f.ctx)
          sp == SpanOf(r.fs, r.fe)
      IN IF r.ok
-        THEN Return(OkRet(MV(f.mode, r.val)), cur + r.adv, sec, insp + r.adv, alt)
+        THEN Return(OkRet(MV(f.mode, r.val)), r.nc, sec, insp + r.adv, alt)
         ELSE IF r.user
              THEN \* Custom::go: add_alt_err(before, err); cursor stays where the closure left it
-                  Return(ErrRet, cur + r.adv, sec, insp + r.adv,
+                  Return(ErrRet, r.nc, sec, insp + r.adv,
                          AddAltErr(Ety, alt, cur, UserErr(Ety, sp[1], sp[2], "cu")))
              ELSE \* span_since(before); rewind(before); add_alt(..) at the rewound cursor
-                  Return(ErrRet, cur + r.adv, sec, insp + r.adv,
-                         AddAlt(Ety, alt, cur + r.adv, r.exp, r.found, sp[1], sp[2]))
+                  Return(ErrRet, r.nc, sec, insp + r.adv,
+                         AddAlt(Ety, alt, r.nc, r.exp, r.found, sp[1], sp[2]))
 
 (* probe: custom(|inp| { log(id, cursor, state, ctx); Ok(()) }) -- the observer leaf *)
 AProbe ==
@@ -341,8 +375,8 @@ ANotRet ==
          t == TokAt(f.cp.cur)
          adv == IF t = "" THEN 0 ELSE 1
      IN IF ret.ok
-        THEN Return(ErrRet, f.cp.cur + adv, RwSec(f.cp), f.cp.insp + adv,
-                    AddAlt(Ety, f.salt, f.cp.cur + adv, {"else"}, t, sp[1], sp[2]))
+        THEN Return(ErrRet, IF t = "" THEN f.cp.cur ELSE Nxt(f.cp.cur), RwSec(f.cp), f.cp.insp + adv,
+                    AddAlt(Ety, f.salt, IF t = "" THEN f.cp.cur ELSE Nxt(f.cp.cur), {"else"}, t, sp[1], sp[2]))
         ELSE Return(OkRet(MV(f.mode, VU)), f.cp.cur, RwSec(f.cp), f.cp.insp, f.salt)
 
 ---------------------------------------------------------------------------
@@ -888,6 +922,44 @@ AWithStateRet ==
 
 
 ---------------------------------------------------------------------------
+(* a.nested_in(b) (NestedIn::go, InputRef::with_input), g = <<"nested", a, b>>:                  *)
+(*   pc 1  b in Emit mode yields the inner input (a flat range VIn(lo, hi))                        *)
+(*   pc 2  the outer alt is taken away; a.then_ignore(end()) runs on the inner input with FRESH    *)
+(*         errors (no alt, no secondary errors) and a fresh memo table, but the same state/context *)
+(*   exit  the inner secondary errors are appended to the outer list, re-located at the outer      *)
+(*         cursor (their spans stay inner spans); the inner alt, if any, is merged into the        *)
+(*         restored outer alt at the outer cursor -- also when the inner parse succeeded.  The     *)
+(*         outer cursor stays after b whatever the inner outcome (callers rewind as for any        *)
+(*         failure).                                                                               *)
+ANestedStart ==
+  /\ Entering({"nested"})
+  /\ LET f == Top IN Call([f EXCEPT !.pc = 1], 2, f.g[3], "E", cur, sec, insp, alt)
+
+ANestedBRet ==
+  /\ Resuming({"nested"}, 1)
+  /\ LET f == Top
+         f2 == [f EXCEPT !.pc = 2, !.salt = alt, !.sv = [sec |-> sec, memo |-> memo, cur |-> cur]]
+     IN IF ~ret.ok THEN Keep(ErrRet)
+        ELSE /\ cur' = ret.val[2] /\ sec' = <<>> /\ insp' = insp /\ alt' = NoAlt
+             /\ memo' = <<>>
+             /\ stack' = Append([stack EXCEPT ![Len(stack)] = f2],
+                                Frame(<<"theni", f.g[2], <<"end">>>>, f.mode, f.ctx, f.env, Append(f.path, 1), "go", 0,
+                                      ret.val[2], 0, insp, <<ret.val[2], ret.val[3]>>))
+             /\ ret' = NoRet
+             /\ Tick
+             /\ UNCHANGED <<cid, kf, obs, result>>
+
+ANestedARet ==
+  /\ Resuming({"nested"}, 2)
+  /\ LET f == Top
+         oc == f.sv.cur
+         moved == [i \in DOMAIN sec |-> [sec[i] EXCEPT !.pos = oc]]
+     IN /\ RetX([ret EXCEPT !.fr = NoFrame], oc, f.sv.sec \o moved, insp,
+                IF alt.some THEN AddAltErr(Ety, f.salt, oc, alt.err) ELSE f.salt)
+        /\ memo' = f.sv.memo
+        /\ UNCHANGED <<cid, kf, obs, result>>
+
+---------------------------------------------------------------------------
 (* Pratt parsing (src/pratt.rs, Pratt::pratt_go).  g = <<"pratt", atom, ops, table>>, ops a     *)
 (* sequence of <<fix, bp, sym>> with fix in {"prefix", "postfix", "infixl", "infixr"}; every   *)
 (* operator parser is just(sym).  One frame per pratt_go invocation: n = min_power,            *)
@@ -1025,7 +1097,8 @@ NoResult == [ok |-> FALSE, out |-> VU, errs |-> <<>>, panic |-> FALSE, insp |-> 
 
 Init ==
   /\ cid \in 1..Len(Cases)
-  /\ stack = << Frame(<<"theni", Cases[cid].g, <<"end">>>>, Cases[cid].mode, VU, <<>>, <<>>, "go", 0, 0, 0, 0) >>
+  /\ stack = << Frame(<<"theni", Cases[cid].g, <<"end">>>>, Cases[cid].mode, VU, <<>>, <<>>, "go", 0, 0, 0, 0,
+                       <<0, Len(Cases[cid].inp)>>) >>
   /\ ret = NoRet
   /\ cur = 0 /\ alt = NoAlt /\ sec = <<>> /\ insp = 0
   /\ memo = <<>>
@@ -1049,6 +1122,7 @@ CoreNext ==
   \/ ARetryUntilRet \/ ARetrySkipRet \/ ARetryRetryRet
   \/ ALabelStart \/ ALabelRet \/ AMapErrRet
   \/ AMemoStart \/ AMemoRet \/ ARecStart \/ ARefStart \/ ALetStart \/ AVarStart \/ APassRet
+  \/ ANestedStart \/ ANestedBRet \/ ANestedARet
   \/ AWithCtxStart \/ AThenCtxStart \/ AThenCtxARet \/ AThenCtxBRet \/ AWithStateStart \/ AWithStateRet
   \/ APrattStart \/ APrattPrefixScan \/ APrattPrefixRet \/ APrattAtomRet \/ APrattPostfixScan \/ APrattInfixScan \/ APrattInfixRet
   \/ Finish
